@@ -76,6 +76,13 @@ CALLS = {
     "en_skipfoo_jan": P("12 January 2020", languages=["en"], settings={"SKIP_TOKENS": ["foo"]}),
     "parse_en_inst": {"op": "parse", "s": "02/03/2012", "kw": {"languages": ["fr"], "settings_obj": {"PREFER_LOCALE_DATE_ORDER": False}}},
     "hijri": {"op": "hijri", "s": "01-02-1440"},
+    # a thread whose earlier call failed, then the call that is pre-empted (state a failure leaves in the thread)
+    "seq_fail_fr_num": {"op": "seq", "ops": [P("12 janvier 2020", languages=["xx"]), P("02/03/2012 10:00", languages=["fr"])]},
+    "seq_badtype_search": {"op": "seq", "ops": [{"op": "parse", "s": 12345, "kw": {"languages": ["en"]}}, S("on 21 October 2005 and yesterday", languages=["en"])]},
+    # intruders that fail (possibly before they ever take a lock)
+    "search_bad": {"op": "search", "text": 20200102, "kw": {"languages": ["ru"]}},
+    "parse_badlang": P("12 March 2015", languages=["xx"]),
+    "parse_badtz": P("12 March 2015 10:00", languages=["en"], settings={"TIMEZONE": "Nowhere/Land"}),
     "search_en_set": S("on 3 March 2012 and 2 days later", languages=["en"], settings={"PREFER_DAY_OF_MONTH": "first"}),
     "slot_fr_first": {"op": "get_date_data", "slot": 1, "ctor": {"languages": ["fr"], "settings": {"PREFER_DAY_OF_MONTH": "first"}}, "s": "mars 2015"},
     "slot_en_now": {"op": "get_date_data", "slot": 2, "ctor": {"languages": ["en"], "settings": {"PREFER_DAY_OF_MONTH": "first"}}, "s": "now"},
@@ -97,6 +104,8 @@ PAIRS_QUICK = [
     ("skip-tokens-or-normalize", "en_skipfoo", "en_skipbar", True), ("skip-tokens-or-normalize", "fr_norm_on", "fr_norm_off", True),
     ("search", "search_fr", "search_de", True), ("search", "search_en", "fr_num", True), ("search", "search_en", "en_tomorrow", True), ("search", "search_fr", "fr_rel", True),
     ("language-or-order", "fr_num", "fr_nolocale", True), ("skip-tokens-or-normalize", "en_skipfoo", "en_plain", True),
+    ("after-failure", "seq_fail_fr_num", "jalali", True), ("after-failure", "seq_badtype_search", "en_tomorrow", True),
+    ("failing-intruder", "fr_num", "search_bad", True), ("failing-intruder", "fr_num", "parse_badlang", True), ("failing-intruder", "search_en", "parse_badtz", True),
     ("settings-instance", "search_en_inst", "en_skipfoo_jan", True), ("settings-instance", "parse_en_inst", "fr_num", True), ("language-or-order", "fr_num", "hijri", True),
     ("live-instance", "slot_fr_first", "parse_en_first", True),
 ]
@@ -113,7 +122,18 @@ PAIRS_WARM_ONLY = [("autodetect", "auto_en", "auto_fr", True), ("autodetect", "a
 def with_clock(op):
     o = copy.deepcopy(op)
     o["clock_us"] = CLOCK_US
+    for sub in o.get("ops", []):
+        sub["clock_us"] = CLOCK_US
     return o
+
+
+def exec_any(op, slots):
+    """One call, or a sequence of calls made one after the other by the same thread."""
+    from checks import c03_history
+
+    if op["op"] == "seq":
+        return ["seq"] + [c03_history.exec_op(sub, slots)[0] for sub in op["ops"]]
+    return c03_history.exec_op(op, slots)[0]
 
 
 # --------------------------------------------------------------------------
@@ -135,7 +155,10 @@ def _setup(p):
     world.set_zone(p.get("zone", "UTC"))
     slots = {}
     calls = p["calls"]
+    flat = []
     for op in calls:
+        flat.extend(op["ops"] if op["op"] == "seq" else [op])
+    for op in flat:
         if op["op"] in ("get_date_data", "get_date_tuple"):
             c03_history.exec_op({"op": "new_parser", "slot": op["slot"], "kw": op["ctor"], "clock_us": op["clock_us"]}, slots)
         if op["op"] == "search":
@@ -145,7 +168,7 @@ def _setup(p):
             import dateparser.calendars.jalali  # noqa: F401
     # a Settings *instance* the caller passes is built by the caller before the concurrent calls
     # start: constructing it (Settings.replace reads the module default) is not one of the calls
-    for op in calls:
+    for op in flat:
         so = (op.get("kw") or {}).get("settings_obj")
         if so is not None:
             from dateparser.conf import settings as _default_settings
@@ -155,7 +178,7 @@ def _setup(p):
     world.refresh(force=True)
     if p.get("warm"):
         for op in calls:
-            c03_history.exec_op(op, slots)
+            exec_any(op, slots)
     return slots
 
 
@@ -166,7 +189,7 @@ def run_seq(p):
     slots = _setup(p)
     outs = {}
     for i in p["order"]:
-        outs[i] = c03_history.exec_op(p["calls"][i], slots)[0]
+        outs[i] = exec_any(p["calls"][i], slots)
     return {"outs": [outs[i] for i in range(len(p["calls"]))]}
 
 
@@ -181,7 +204,7 @@ def run_plan(p):
 
     def mk(i, op):
         def fn():
-            holder[i] = c03_history.exec_op(op, slots)[0]
+            holder[i] = exec_any(op, slots)
             return None
         return fn
 
